@@ -262,8 +262,8 @@ func c03Generator(c *Ctx) {
 				}
 				continue
 			}
-			if !strings.HasPrefix(lit, "default ") {
-				continue
+			if !strings.HasPrefix(lit, "default ") || strings.Contains(lit, "%") {
+				continue // (a format string is judged where the text it produces is added to the output)
 			}
 			fs := strings.Fields(strings.TrimPrefix(lit, "default "))
 			if len(fs) == 0 {
